@@ -23,6 +23,7 @@ def _index_objects():
     return objs
 
 BINARIES = {
+    "h_mem": {"flavour": "asan", "objects": [("h_mem.cpp", [], "main")], "about": "TbfMemoryBlock layouts + byte-copied views of cell/particle groups with operators run on the views; viewer bounds hook H1"},
     "h_index": {"flavour": "asan", "objects": _index_objects(), "about": "public index API of Morton (Dim 1..4, periodic or not) and Hilbert (Dim 3) orderings against the coordinate model"},
     "h_sched": {"flavour": "asan", "objects": _sched_objects(0), "cflags": ["-fopenmp"], "ldflags": ["-lpthread"], "about": "OpenMP executors (plain and target/source) linked against the scheduler shim instead of libgomp; hostile schedules; O-dag, O-seq, P-rec; ASan+UBSan"},
     "h_sched_tsan": {"flavour": "tsan", "objects": _sched_objects(1), "cflags": ["-fopenmp"], "ldflags": ["-lpthread"], "about": "same engine under ThreadSanitizer with wave policies (mutually unordered tasks released together)"},
@@ -176,8 +177,18 @@ CHECKS = {
         "require_events": ["counter-values-checked", "merge-orders", "worker-copies-merged", "schedules-executed", "timer-merges"],
         "assumptions": [],
     },
+    "C14": {
+        "level": EXPL,
+        "technique": "runtime monitoring: address-range monitor over every viewer accessor (inside buffer, below trailer, sub-blocks disjoint), byte copies into exactly-sized allocations under ASan, index-range hook H1 in the viewers, differential run of all operators on byte-copied views",
+        "claim": "For every explored layout (1..4 sub-blocks of scalar / vector / multi-row / multi-column kinds, element sizes 1..4096 bytes, counts 0..10^4 incl. rows ending on / one past a 64-byte boundary) all accessors stayed inside the buffer and below the trailer, sub-blocks never overlapped, a byte copy viewed through the raw-memory constructor returned identical values (also after shrinking reuse, move construction/assignment, regrow); for every explored tree, byte copies of all groups were equivalent views and the full operator sequence run on the views left byte-identical buffers.",
+        "note": "Trusted: address arithmetic of the harness. Over-aligned element types (alignas > 16) are not exercised.",
+        "jobs": [{"bin": "h_mem", "mode": "c14"}],
+        "rule": "cases = 8 layout families x random counts (0, 1, k*64/size, k*64/size+1, small, up to 2000/10^4) each followed by a random smaller count set; and random trees (Dim 1..3, periodic Dim 3) whose every cell/particle group is byte-copied, viewed, compared accessor by accessor, then executed through TbfAlgorithm on the views and compared byte for byte with the originals. non-trivial = any layout case / tree with >= 2 groups; distinct = case id or configuration signature.",
+        "require_events": ["elements-checked", "layouts-exercised", "groups-viewed", "bytes-compared", "viewer-bounds-hook-checks"],
+        "assumptions": [],
+    },
 }
 SPECIAL = {}
 NOT_CLAIMED = {}
-HOOK_COMMITS = []
+HOOK_COMMITS = ["1b1b322 verif hook (guard TBFMM_VERIF): index-range check in the block viewers"]
 
